@@ -108,8 +108,21 @@ def propka_rows(info_res, group, pka, chain="A"):
     }]
 
 
+def _charge_verdict(side, state, charge):
+    """The residue must carry the formal charge of the state it ended in
+    (a thiolate that is parameterised as a bridged cysteine has the right
+    hydrogens and the wrong charge)."""
+    if charge is None:
+        return None
+    want = corpus.formal_charge(state)
+    if abs(charge - want) > 1e-3:
+        return (f"{side}/residue-charge-is-not-that-of-{state}",
+                {"charge": round(charge, 4), "expected": want})
+    return None
+
+
 def judge(ff, group, resname, position, ph, pka, names, n_missed, warnings,
-          key_fragment):
+          key_fragment, charge=None):
     """Reference decision model -> (kind or None, detail)."""
     want_prot = ph < pka
     default = DEFAULT_PROT[group]
@@ -121,13 +134,14 @@ def judge(ff, group, resname, position, ph, pka, names, n_missed, warnings,
     if want_prot == default:
         if got_prot != default:
             return (f"{side}/default-state-lost", {"names": sorted(names)})
-        return None
+        return _charge_verdict(side, target_state(group, resname, position,
+                                                  default), charge)
     tgt = target_state(group, resname, position, want_prot)
     if supported(ff, tgt):
         if got_prot != want_prot:
             return (f"{side}/not-titrated-although-{tgt}-is-supported",
                     {"names": sorted(names)})
-        return None
+        return _charge_verdict(side, tgt, charge)
     # unsupported: default state and a warning
     if got_prot != default:
         return (f"{side}/titrated-to-unsupported-{tgt}",
@@ -202,9 +216,11 @@ def run_table_case(case):
             names = [a.name for a in resd.atoms]
             missed = {id(a) for a in (r.missed or [])}
             n_missed = sum(1 for a in resd.atoms if id(a) in missed)
+            rq = sum(a.ffcharge for a in resd.atoms
+                     if a.ffcharge is not None and id(a) not in missed)
             verdict = judge(ff, group, tinfo["input"], pos, ph, pka, names,
                             n_missed, r.warnings,
-                            f"{tinfo['input']} {tinfo['res_seq']}")
+                            f"{tinfo['input']} {tinfo['res_seq']}", charge=rq)
             want_prot = ph < pka
             if want_prot != DEFAULT_PROT[group]:
                 res["nontrivial"].append(f"{driver}:{ff}:{group}@{pos}:{side}")
@@ -283,8 +299,10 @@ def run_hepta_case(case):
             resd = find_residue(r.bm, 1 + i)
             names = [a.name for a in resd.atoms]
             n_missed = sum(1 for a in resd.atoms if id(a) in missed)
+            rq = sum(a.ffcharge for a in resd.atoms
+                     if a.ffcharge is not None and id(a) not in missed)
             verdict = judge(ff, name, name, "mid", ph, vec[name], names,
-                            n_missed, r.warnings, f"{name} {1 + i}")
+                            n_missed, r.warnings, f"{name} {1 + i}", charge=rq)
             if verdict is not None:
                 sig = f"C06/hepta/{ff}/{name}@mid/{verdict[0]}"
                 if sig not in seen:
@@ -350,8 +368,11 @@ def run_real_case(case):
             pos = "n" if resd.is_n_term else "c" if resd.is_c_term else "mid"
             names = [a.name for a in resd.atoms]
             n_missed = sum(1 for a in resd.atoms if id(a) in missed)
+            rq = sum(a.ffcharge for a in resd.atoms
+                     if a.ffcharge is not None and id(a) not in missed)
             verdict = judge(ff, base, base, pos, ph, pk[key], names, n_missed,
-                            r.warnings, f"{resd.name} {resd.res_seq}")
+                            r.warnings, f"{resd.name} {resd.res_seq}",
+                            charge=rq)
             res["nontrivial"].append(f"real:{case['file']}:{ff}:{key}:{ph < pk[key]}")
             if verdict is not None:
                 sig = f"C06/real/{ff}/{base}@{pos}/{verdict[0]}"
